@@ -143,9 +143,11 @@ class Interp:
                 k = int(ks)
                 d = st["depth"]
                 return {"<": d < k, "!=": d != k, "==": d == k, ">=": d >= k, ">": d > k, "<=": d <= k}[op]
-            if atom not in tok:
-                raise Unknown(f"token condition `{atom}` is not part of the token classes")
-            return tok[atom]
+            neg = atom.startswith("!")
+            base = atom[1:] if neg else atom
+            if base not in tok:
+                raise Unknown(f"token condition `{base}` is not part of the token classes")
+            return (not tok[base]) if neg else tok[base]
         if isinstance(e, ast.NamedExpr):
             return self.ev(e.value, node, st, tok)
         if isinstance(e, ast.BoolOp):
